@@ -121,3 +121,12 @@ law('where.hashes.vstack', forall([A_, B_, P_, h_], z3.Implies(
     LA.where(_reqmask(_hashes(LA.mvstack(A_, B_), P_), h_)) ==
     LA.iconcat(LA.where(_reqmask(_hashes(A_, P_), h_)), LA.ishift(LA.where(_reqmask(_hashes(B_, P_), h_)), mrows(A_)))),
     [LA.where(_reqmask(_hashes(LA.mvstack(A_, B_), P_), h_))]), ['lsh_hashes'], 'where_hashes_vstack')
+
+# ---- a sequence is its prefix followed by the rest (train / test split of the simulator, C16)
+t_ = z3.Int('t')
+law('aslice.split', forall([s_, t_], z3.Implies(z3.And(0 <= t_, t_ <= T.alen(s_)),
+                                                T.aconcat(T.aslice(s_, 0, t_), T.aslice(s_, t_, T.alen(s_))) == s_),
+                           [T.aslice(s_, 0, t_)]), ['aslice'], 'take_append_drop')
+law('rslice.split', forall([u_, t_], z3.Implies(z3.And(0 <= t_, t_ <= T.rlen(u_)),
+                                                T.rconcat(T.rslice(u_, 0, t_), T.rslice(u_, t_, T.rlen(u_))) == u_),
+                           [T.rslice(u_, 0, t_)]), ['rslice'], 'take_append_drop')
